@@ -418,6 +418,11 @@ func (c *Ctx) Picks() []int {
 // NewReplayCtx builds a controller that replays the given picks.
 func NewReplayCtx(picks []int, labels bool) *Ctx { return &Ctx{prefix: picks, Labels: labels} }
 
+// NewReplayCtxNoMap replays picks that were recorded without map-order choice points.
+func NewReplayCtxNoMap(picks []int, labels bool) *Ctx {
+	return &Ctx{prefix: picks, Labels: labels, NoMap: true}
+}
+
 // Describe renders the non-default decisions of an execution.
 func (c *Ctx) Describe() []string {
 	var res []string
